@@ -48,6 +48,10 @@ pub enum Op {
 pub struct Segment {
     /// Some(n): first type the n-th (mod count) pool key that begins no bound chord
     pub unbound: Option<u8>,
+    /// Some((c, l)): before the unbound key, type the first l keys (a proper prefix) of bound
+    /// chord c, so the unbound key arrives while a chord is pending (clause B2)
+    #[serde(default)]
+    pub pending: Option<(u16, u8)>,
     /// which bound chord to type (mod number of bound chords)
     pub chord: u16,
 }
@@ -327,11 +331,34 @@ fn check_matcher(
                 ctx.feat("matcher.no-unbound-key-available");
             } else {
                 let key = unbound[sel as usize % unbound.len()];
+                clause = "B";
+                context = format!("right after the unbound key {:?}", pool[key as usize]);
+                // B2: the unbound key arrives while a proper prefix of a bound chord is pending and
+                // the pending keys + the unbound key match nothing in the dictionary
+                if let Some((c, l)) = segment.pending {
+                    let (longer, _) = &model.bound[c as usize % model.bound.len()];
+                    if longer.len() >= 2 {
+                        let l = 1 + (l as usize % (longer.len() - 1));
+                        let mut seq = longer[..l].to_vec();
+                        seq.push(key);
+                        if model.lookup(&seq) == Expect::Failure {
+                            for k in &longer[..l] {
+                                // answers while the chord is pending are not judged here
+                                let _ = map.lookup_state(&mut state, pool[*k as usize]);
+                                let _ = handler.handle(pool[*k as usize]);
+                            }
+                            clause = "B2";
+                            context = format!(
+                                "right after the unbound key {:?} that interrupted the pending keys [{}]",
+                                pool[key as usize],
+                                show(&longer[..l], pool)
+                            );
+                        }
+                    }
+                }
                 // what the matcher answers to the unbound key itself is not stated
                 let _ = map.lookup_state(&mut state, pool[key as usize]);
                 let _ = handler.handle(pool[key as usize]);
-                clause = "B";
-                context = format!("right after the unbound key {:?}", pool[key as usize]);
             }
         }
         type_chord(
@@ -352,10 +379,10 @@ fn check_matcher(
             "KeyMapHandler::handle",
             &context,
         )?;
-        ctx.feat(if clause == "A" {
-            "matcher.A.chord-from-idle"
-        } else {
-            "matcher.B.chord-after-unbound-key"
+        ctx.feat(match clause {
+            "A" => "matcher.A.chord-from-idle",
+            "B" => "matcher.B.chord-after-unbound-key",
+            _ => "matcher.B2.chord-after-unbound-key-interrupting-pending-chord",
         });
         ctx.feat_if(chord.len() > 1, "matcher.multi-key-chord");
     }
@@ -873,6 +900,11 @@ impl Prop for C18 {
             .map(|_| Segment {
                 unbound: if rng.bool() {
                     Some(rng.next_u8())
+                } else {
+                    None
+                },
+                pending: if rng.bool() {
+                    Some((rng.next_u32() as u16, rng.next_u8()))
                 } else {
                     None
                 },
